@@ -27,4 +27,16 @@ META = {
         "text": "Every call's return values are compared with an explicit reference model after every step; the wrapped streams are scripted (short counts, EOF, errors) and log each call so that 'not touched after Close' and 'read issued at the model position' are observable. unique: contents equal the model and the notification log replayed on the previous contents reproduces the new contents.",
         "note": "ReaderAtSeeker is built with the true size (documented precondition). Scripted streams respect the io.Reader/Writer contract (0 <= n <= len(p)). Removal notifications are only required to name the key.",
     },
+    "C03": {
+        "engine": _E1, "design_ref": "DESIGN.md §4 C03",
+        "technique": "stateful PBT with generated schedule; channel-generation model + two-sided waiter oracle at synctest quiescence",
+        "text": "Generated waiters/updaters/peekers on one Broadcast with a generated interleaving of critical sections, including broadcasts that land between a waiter's predicate check and its blocking receive. Every wait channel handed out carries the number of broadcasts before it and must be closed iff a later broadcast happened; Wait's return value is checked against the wrapped predicate; a blocked Wait at quiescence must have a false predicate and a live context.",
+        "note": "Broadcasters broadcast whenever they change the guarded state (documented usage). TryHoldLock/HoldLockMaybeAsync contention paths are only exercised by the free-running race programs (C13).",
+    },
+    "C15": {
+        "engine": _E1, "design_ref": "DESIGN.md §4 C15",
+        "technique": "model-based stateful PBT with generated schedule; sequential cell model advanced in critical-section grant order; waiter results checked against the value sampled in their last critical section; blocked-while-satisfied at quiescence",
+        "text": "Writers (SetValue, SwapValue inc/const/nil), readers and all four waiter kinds with contexts and error channels over plain and custom equality; the model is advanced in the exact order the controller grants the critical sections, so every GetValue/SwapValue result and every waiter return is compared with the linearised cell history.",
+        "note": "One critical section per mutator call (true for the anchored code). Values 0..8, equality mod 4.",
+    },
 }
